@@ -275,6 +275,17 @@ func (t *textGen) randTime() time.Time {
 	zones := []*time.Location{time.UTC, time.FixedZone("", 3600), time.FixedZone("", -19800), time.FixedZone("", 14*3600), time.FixedZone("", -12*3600+1800)}
 	years := []int{1, 999, 1969, 1970, 2006, 2038, 9999}
 	ns := []int{0, 1, 100, 123456789, 999999999, 120000000}
+	if t.r.chance(1, 6) {
+		// the instants code likes to take for "unset": Go's zero time and the Unix epoch, in any zone, and their neighbours
+		special := []time.Time{{}, time.Unix(0, 0).UTC(), time.Time{}.Add(1), time.Unix(0, 1).UTC(), time.Unix(0, -1).UTC()}
+		z := zones[t.r.intn(len(zones))]
+		if t.r.chance(1, 6) {
+			// the last instant the format can write, in the zone itself (seen from a zone further east it is in the year
+			// 10000, which RFC 3339 cannot write: outside the domain, Model/TimeFmt.lean `timeOK`)
+			return time.Date(9999, 12, 31, 23, 59, 59, 999999999, z)
+		}
+		return special[t.r.intn(len(special))].In(z)
+	}
 	return time.Date(years[t.r.intn(len(years))], time.Month(1+t.r.intn(12)), 1+t.r.intn(28), t.r.intn(24), t.r.intn(60), t.r.intn(60), ns[t.r.intn(len(ns))], zones[t.r.intn(len(zones))])
 }
 
